@@ -187,7 +187,60 @@ def assembled_stream(ctx):
                                 {'case': case})
 
 
+def numeric_stream(ctx, nenv):
+    """every LOADED generated Jacobian function of every model against the derivative `D` that the Lean
+    driver computes from the DECLARED equation (independent of SymPy and of the pycode text)"""
+    import glob
+    import numpy as np
+    import andes
+    from harness import c02
+    ss = andes.System(default_config=True)
+    lines, meta = [], []
+    for f in sorted(glob.glob(os.path.join(C.WORK, 'gen', '*.json'))):
+        if os.path.basename(f).startswith('_'):
+            continue
+        g = json.load(open(f))
+        m = ss.models.get(g['model'])
+        if m is None or not g.get('jacobians'):
+            continue
+        sym, cx = g['sym'], set(g['complex'])
+        envs = [c02.gen_env(ctx.rng, sym, cx) for _ in range(nenv)]
+        env_txt = ' ; '.join(','.join(C.f2h(v) for v in e) if e else '-' for e in envs)
+        for jf in g['jacobians']:
+            func = m.calls.j.get(jf['fn'][:-7])
+            if func is None:
+                ctx.broken.append('loaded Jacobian function %s.%s missing' % (g['model'], jf['fn']))
+                continue
+            try:
+                rets = [c02.flatten(c02.call_loaded(func, jf['args'], e, sym, cx)) for e in envs]
+            except Exception as ex:
+                ctx.oracle_fail('loaded-jacobian-raises', '%s.%s raised %r' % (g['model'], jf['fn'], ex), {'model': g['model']})
+                continue
+            for k, ent in enumerate(jf['entries']):
+                lines.append('evd %d %s | %s' % (ent['col'], ent['decl'], env_txt))
+                meta.append((g['model'], jf['fn'], ent['name'], [float(np.real(r[k])) if k < len(r) else float('nan') for r in rets]))
+    outs = ctx.driver.ask(lines)
+    for (model, fn, name, vals), o in zip(meta, outs):
+        if o in ('bad-expr', 'bad-op'):
+            ctx.broken.append('driver cannot parse the declared equation of %s.%s' % (model, name))
+            continue
+        mv = [C.h2f(x) if len(x) == 16 else float('nan') for x in o.split(',')]
+        for j, (a, b) in enumerate(zip(vals, mv)):
+            ctx.evaluations += 1
+            if not (math.isfinite(a) and math.isfinite(b)):
+                ctx.count('non_finite_skipped')
+                continue
+            ctx.count('jacobian_points_finite')
+            if len(ctx.sigs) < 200000:
+                ctx.sigs.add((model, name, j))
+            if abs(a - b) > 1e-7 * (1 + abs(a) + abs(b)):
+                ctx.oracle_fail('jacobian-entry-not-derivative:%s.%s' % (model, name),
+                                '%s.%s entry %s: loaded generated code returns %r, the derivative of the declared equation is %r'
+                                % (model, fn, name, a, b), {'model': model, 'entry': name})
+
+
 def run(ctx):
+    numeric_stream(ctx, ctx.n(2, 8))
     assembled_stream(ctx)
 
 
